@@ -140,7 +140,7 @@ func plausible(r *core.Rand, key string, root *jv) *jv {
 			return jNull()
 		}
 		return jArr(xs...)
-	case "priority", "label":
+	case "priority", "label", "port":
 		if r.Chance(1, 5) {
 			return jNull()
 		}
